@@ -26,7 +26,7 @@ def sigv(c, rec, vname):
 def run(ctx):
     thorough = ctx.tier == "thorough"
     kw = dict(sig=sig, sigv=sigv, rerun=None, input_keys=["tmtext", "orig"],
-              observed_keys=["err", "complErr", "g", "sets", "afterErr", "ssym"],
+              observed_keys=["err", "complErr", "g", "sets", "afterErr", "ssym", "laHosts"],
               nontrivial=lambda c: c["usable"] and (len(c["sets"]) > 0 or c["ssym"] >= 0 or c["complErr"]))
     f = ctx.path("rnd.ndjson")
     ctx.vhrun(["c15-random", "30000" if thorough else "4000", f])
